@@ -687,6 +687,10 @@ class FunctionParser(BaseParser):
                     _ = _self
             if args and not _:
                 _, *args = args
+            elif not _ and self.reserve_name in kwargs:
+                # the reserved first parameter is given by keyword: the function was only guessed to be an
+                # instance method (e.g. @staticmethod applied over @utype.parse with a bare first parameter)
+                _ = kwargs.pop(self.reserve_name)
         if parse_params:
             args, kwargs = self.parse_params(args, kwargs, context=context)
         if first_reserve:
